@@ -1676,6 +1676,13 @@ func (db *DB) CommitWAL(ctx context.Context) (err error) {
 			continue
 		}
 
+		// A page written earlier in the transaction (a cache spill) can lie
+		// beyond the size the commit frame leaves. It is not part of the database.
+		if pgno > commit {
+			TraceLog.Printf("[CommitWALPage(%s)]: pgno=%d SKIP(TRUNCATED)\n", db.name, pgno)
+			continue
+		}
+
 		// Read next frame from the WAL file.
 		offset := txFrameOffsets[pgno]
 		if _, err := internal.ReadFullAt(walFile, frame, offset); err != nil {
